@@ -1,9 +1,11 @@
 package main
 
 import (
+	"fmt"
 	"reflect"
 	"sort"
 	"strings"
+	"sync"
 
 	inhouse "verif/harness/cmd/mvh/inhouse/common"
 
@@ -128,6 +130,48 @@ func dialectRecord(rec *Rec, name string, d *dialect.Dialect, ix map[reflect.Typ
 		"hits": hits, "nlookups": n, "version": d.Version})
 }
 
+// concurrentInits: several dialects initialised at the same instant, each by its own goroutine into its own ReadWriter
+// (two nodes starting together); every codec is then looked up by its declared id (sweep "declared").
+func concurrentInits(rec *Rec, ix map[reflect.Type]int) {
+	names := []string{"common", "ardupilotmega", "minimal", "common", "all", "standard", "common", "development"}
+	for round := 0; round < 6; round++ {
+		type res struct {
+			name string
+			d    *dialect.Dialect
+			rw   *dialect.ReadWriter
+			ok   bool
+			pan  bool
+		}
+		out := make([]res, len(names))
+		start := make(chan struct{})
+		var wg sync.WaitGroup
+		for i, n := range names {
+			wg.Add(1)
+			go func(i int, n string) {
+				defer wg.Done()
+				d := findDialect(n)
+				<-start
+				rw, ok, pan := safeDialectInit(d)
+				out[i] = res{n, d, rw, ok, pan}
+			}(i, n)
+		}
+		close(start)
+		wg.Wait()
+		for i, r := range out {
+			hits := [][]int{}
+			if r.ok {
+				for _, m := range r.d.Messages {
+					if mrw := r.rw.GetMessage(m.GetID()); mrw != nil {
+						hits = append(hits, []int{int(m.GetID()), ix[reflect.TypeOf(mrw.Message)], int(mrw.Message.GetID()), int(mrw.CRCExtra())})
+					}
+				}
+			}
+			rec.Put(M{"e": "DIALECT", "name": fmt.Sprintf("%s_concurrent_%d_%d", r.name, round, i), "init_ok": r.ok, "panic": r.pan,
+				"decl": dialectIndices(r.d, ix), "hits": hits, "nlookups": len(r.d.Messages), "sweep": "declared", "version": r.d.Version})
+		}
+	}
+}
+
 var namesakeCase = []message.Message{&MessageGoodOne{}, &inhouse.MessageHeartbeat{}}
 
 func cmdC17(o opts) {
@@ -154,6 +198,7 @@ func cmdC17(o opts) {
 	for _, nd := range shipped {
 		dialectRecord(rec, nd.Name, nd.D, ix)
 	}
+	concurrentInits(rec, ix)
 	// an in-house dialect whose package and type names coincide with shipped ones (initialized after them)
 	dialectRecord(rec, "inhouse_common_after_shipped", inhouse.Dialect, ix)
 
